@@ -106,6 +106,8 @@ impl<T: Clone + 'static> Stream for VectorSubscriberStream<T> {
         match &mut self.state {
             VectorSubscriberStreamState::Recv => {
                 let (result, mut rx) = ready!(self.inner.poll(cx));
+                #[cfg(eyeball_verif)]
+                crate::verif::after_recv(&result);
 
                 let poll = match result {
                     Ok(msg) => match msg.diffs {
@@ -182,12 +184,17 @@ impl<T: Clone + 'static> Stream for VectorSubscriberBatchedStream<T> {
         }
 
         let (result, mut rx) = ready!(self.inner.poll(cx));
+        #[cfg(eyeball_verif)]
+        crate::verif::after_recv(&result);
 
         let poll = match result {
             Ok(msg) => {
                 let mut batch = msg.diffs.into_vec();
                 loop {
-                    match rx.try_recv() {
+                    let received = rx.try_recv();
+                    #[cfg(eyeball_verif)]
+                    crate::verif::after_try_recv(&received);
+                    match received {
                         Ok(msg) => append(&mut batch, msg.diffs),
                         Err(TryRecvError::Empty | TryRecvError::Closed) => {
                             break Poll::Ready(Some(batch));
@@ -215,7 +222,10 @@ impl<T: Clone + 'static> Stream for VectorSubscriberBatchedStream<T> {
 fn handle_lag<T: Clone + 'static>(rx: &mut Receiver<BroadcastMessage<T>>) -> Option<Vector<T>> {
     let mut msg = None;
     loop {
-        match rx.try_recv() {
+        let received = rx.try_recv();
+        #[cfg(eyeball_verif)]
+        crate::verif::after_try_recv(&received);
+        match received {
             // There's a newer message in the receiver's buffer, use that for reset.
             Ok(m) => {
                 msg = Some(m);
